@@ -798,8 +798,10 @@ class Tag:
         # Note: .split() splits on any whitespace and removes empty strings
         new_classes = [cls_val for cls_val in cls.split() if cls_val != class_]
         if len(new_classes) > 0:
-            # Store the new class value
-            self.attrs.update({"class": " ".join(new_classes)})
+            # Store the new class value; what remains of an HTML() value is still HTML()
+            # (a plain string would be escaped a second time when rendered)
+            new_cls = " ".join(new_classes)
+            self.attrs.update({"class": HTML(new_cls) if isinstance(cls, HTML) else new_cls})
         else:
             # If no class values remain, remove the class attribute
             self.attrs.pop("class")
